@@ -331,3 +331,81 @@ Theorem drain_deadline_truncates_refuted :
   exists sched, d_got (fst (drain_run (Some 5) 3 sched)) < 3 /\
                 nth_error (snd (drain_run (Some 5) 3 sched)) 0 = Some (DRespDone true).
 Proof. exists [0; 1; 1; 1; 1; 1; 1; 0; 0; 0]. vm_compute. split; [lia|reflexivity]. Qed.
+
+(* ---------------- a pending token wait is aborted by the closure ---------------- *)
+(* however long the pacing still to do (w), once the bridge has been closed ONE step of the waiting direction ends it *)
+Definition wtriple (p : wait_policy) (t : bool * wthread * bool) (i : nat) : bool * wthread * bool :=
+  let '(c, a, f) := t in
+  match i with
+  | 0 => let '(a', c') := wstep p a c in (c', a', f)
+  | 1 => (true, a, true)
+  | _ => t
+  end.
+Definition wstate (t : bool * wthread * bool) : bool * list wthread := let '(c, a, f) := t in (c, [a; WCloser f]).
+
+Lemma wrun_triple p : forall s t, run _ _ (wstep p) (wstate t) s = wstate (fold_left (wtriple p) s t).
+Proof.
+  induction s as [|i r IH]; intros [[c a] f]; [reflexivity|]. cbn [run fold_left]. rewrite <- IH. f_equal.
+  unfold sys_step, wstate, wtriple. cbn [fst snd]. destruct i as [|[|i]]; cbn [nth_error].
+  - destruct (wstep p a c). reflexivity.
+  - reflexivity.
+  - assert (En : nth_error (@nil wthread) i = None) by (destruct i; reflexivity). rewrite En. reflexivity.
+Qed.
+
+Definition waiter (a : wthread) : Prop := match a with WWaiting _ | WExited => True | _ => False end.
+
+Lemma wtriple_waiter t i : waiter (snd (fst t)) -> waiter (snd (fst (wtriple CancellableWait t i))) /\
+  (fst (fst t) = true -> fst (fst (wtriple CancellableWait t i)) = true) /\
+  (snd (fst t) = WExited -> snd (fst (wtriple CancellableWait t i)) = WExited) /\
+  (i = 1 -> fst (fst (wtriple CancellableWait t i)) = true) /\
+  (i = 0 -> fst (fst t) = true -> snd (fst (wtriple CancellableWait t i)) = WExited).
+Proof.
+  destruct t as [[c a] f]. cbn [fst snd]. intros Ha. destruct i as [|[|i]]; cbn [wtriple].
+  - destruct a as [w| |]; try contradiction; [destruct c, w|]; cbn; repeat split; auto; try discriminate.
+  - cbn. repeat split; auto; discriminate.
+  - cbn. repeat split; auto; discriminate.
+Qed.
+
+Lemma wfold_inv : forall s t, waiter (snd (fst t)) ->
+  waiter (snd (fst (fold_left (wtriple CancellableWait) s t))) /\
+  (fst (fst t) = true -> fst (fst (fold_left (wtriple CancellableWait) s t)) = true) /\
+  (snd (fst t) = WExited -> snd (fst (fold_left (wtriple CancellableWait) s t)) = WExited) /\
+  (In 1 s -> fst (fst (fold_left (wtriple CancellableWait) s t)) = true) /\
+  (In 0 s -> fst (fst t) = true -> snd (fst (fold_left (wtriple CancellableWait) s t)) = WExited).
+Proof.
+  induction s as [|i r IH]; intros t Ht; cbn [fold_left]; [repeat split; auto; contradiction|].
+  destruct (wtriple_waiter t i Ht) as (W & C & E & C1 & E0). destruct (IH _ W) as (W' & C' & E' & C1' & E0').
+  split; [exact W'|]. split; [auto|]. split; [auto|]. split.
+  - intros [<-|H]; [apply C', C1; reflexivity|apply C1'; exact H].
+  - intros [<-|H] Hc; [apply E', E0; auto|apply E0'; auto].
+Qed.
+
+Theorem cancelled_wait_ends_at_once : forall w s1 s2,
+  In 1 s1 -> In 0 s2 ->
+  nth_error (snd (wait_run CancellableWait w (s1 ++ s2))) 0 = Some WExited.
+Proof.
+  intros w s1 s2 H1 H0. unfold wait_run.
+  change (false, [WWaiting w; WCloser false]) with (wstate (false, WWaiting w, false)).
+  rewrite wrun_triple, fold_left_app.
+  destruct (wfold_inv s1 (false, WWaiting w, false) I) as (W & _ & _ & C1 & _).
+  destruct (wfold_inv s2 _ W) as (_ & _ & _ & _ & E0).
+  specialize (E0 H0 (C1 H1)).
+  destruct (fold_left (wtriple CancellableWait) s2 _) as [[c a] f]. cbn in *. now rewrite E0.
+Qed.
+
+(* refuted: with ReserveN + Sleep the direction is still waiting after the closure and any k < w further steps *)
+Theorem sleep_wait_outlasts_closure_refuted : forall w k, k < w ->
+  nth_error (snd (wait_run SleepWait w (1 :: repeat 0 k))) 0 = Some (WWaiting (w - k)).
+Proof.
+  intros w k Hk. unfold wait_run. cbn [run fold_left]. unfold sys_step at 2. cbn.
+  revert w Hk. induction k as [|k IH]; intros w Hk; cbn [repeat fold_left].
+  - rewrite Nat.sub_0_r. reflexivity.
+  - destruct w as [|w]; [lia|]. unfold sys_step at 2. cbn. rewrite (IH w) by lia. reflexivity.
+Qed.
+
+(* refuted: going on with the next read after a failed write leaves a hole — the result is not a prefix of what was sent *)
+Theorem skip_failed_writes_not_prefix_refuted :
+  exists chunks, forall rest, concat (map fst chunks) <> skip_failed_writes chunks ++ rest.
+Proof.
+  exists [([1; 2], false); ([3; 4], true); ([5; 6], false)]. intros rest H. cbn in H. discriminate.
+Qed.
